@@ -254,9 +254,12 @@ func codecGrid(c *Ctx) []codecIn {
 		allCodecs(randGraphJ(r, n, p))
 	}
 	for _, n := range []int{62, 63, 64, 100, 300} {
-		if n == 300 && !big {
+		if n == 300 { // 44850 pairs: the acceptor needs minutes for a dense graph of this size, so a sparse one (and 0.03 in the thorough tier)
 			add(codecIn{Codec: "g6", G: randGraphJ(r, n, 0.002), Rep: "dense"})
 			add(codecIn{Codec: "s6", G: randGraphJ(r, n, 0.002), Rep: "sparse"})
+			if big {
+				add(codecIn{Codec: "s6", G: randGraphJ(r, n, 0.03), Rep: "sparse"})
+			}
 			continue
 		}
 		allCodecs(randGraphJ(r, n, 0.03))
